@@ -85,7 +85,7 @@ func vhSingleAsRange(r *vhRef, k []byte) (wk, wv [][]byte) {
 // VH_C01_step: one committed command of the given kind from an arbitrary
 // state; response and complete post-state against the reference map; applied
 // index == the entry's index; leader index only moves when the entry says so.
-// kind: 0 put, 1 delete, 2 delete range, 3 put batch, 4 delete batch, 5 sequence(put, delete range), 6 no-op
+// kind: 0 put, 1 delete, 2 delete range, 3 put batch, 4 delete batch, 5 sequence(put, delete range), 6 no-op, 7 sequence(delete range, reading command)
 func VH_C01_step(kind, maxN, maxK, maxV, wide int) {
 	db := vhOpenDB()
 	ref := vhArbitraryStateSys(db, maxN, maxK, maxV, true)
@@ -178,6 +178,48 @@ func VH_C01_step(kind, maxN, maxK, maxV, wide int) {
 				vhPutResp(res.Responses[0], old, had, k, true, "sequence/put")
 				wk, wv := mid.rng(a, b)
 				vhDelResp(res.Responses[1], wk, wv, prev, count, "sequence/delete range (sees the put)")
+			}
+		}
+	case 7:
+		// a range delete followed, in the same batch, by a command whose response reads the state
+		a, b := vhArbKey(1, maxK), vhArbKey(0, maxK)
+		first := &regattapb.Command{Table: []byte("t"), Type: regattapb.Command_DELETE, Kv: &regattapb.KeyValue{Key: a}, RangeEnd: b}
+		ref.delRange(a, b)
+		mid := ref.clone()
+		second := &regattapb.Command{Table: []byte("t")}
+		k := vhArbKey(1, maxK)
+		var check2 func(op *regattapb.ResponseOp)
+		switch verif.Choice(3) {
+		case 0:
+			v := vhArbKey(0, maxV)
+			second.Type, second.Kv, second.PrevKvs = regattapb.Command_PUT, &regattapb.KeyValue{Key: k, Value: v}, true
+			ref.put(k, v)
+			check2 = func(op *regattapb.ResponseOp) {
+				old, had := mid.get(k)
+				vhPutResp(op, old, had, k, true, "sequence/put after range delete")
+			}
+		case 1:
+			second.Type, second.Kv, second.PrevKvs, second.Count = regattapb.Command_DELETE, &regattapb.KeyValue{Key: k}, true, true
+			ref.del(k)
+			check2 = func(op *regattapb.ResponseOp) {
+				wk, wv := vhSingleAsRange(mid, k)
+				vhDelResp(op, wk, wv, true, true, "sequence/delete after range delete")
+			}
+		default:
+			second.Type, second.Kv, second.RangeEnd, second.PrevKvs, second.Count = regattapb.Command_DELETE, &regattapb.KeyValue{Key: k}, wildcard, true, true
+			ref.delRange(k, wildcard)
+			check2 = func(op *regattapb.ResponseOp) {
+				wk, wv := mid.rng(k, wildcard)
+				vhDelResp(op, wk, wv, true, true, "sequence/range delete after range delete")
+			}
+		}
+		cmd.Type = regattapb.Command_SEQUENCE
+		cmd.Sequence = []*regattapb.Command{first, second}
+		check = func(res *regattapb.CommandResult) {
+			verif.Assert(len(res.Responses) == 2, "sequence: responses of all elements, in order")
+			if len(res.Responses) == 2 {
+				vhDelResp(res.Responses[0], nil, nil, false, false, "sequence/first range delete")
+				check2(res.Responses[1])
 			}
 		}
 	default:
